@@ -45,6 +45,14 @@ CLAIMED = {
             "r_sequence.py bit-for-bit (Float instance) and to exact rationals within 2^-50; phi/alpha are tolerance-checked numerics.",
             "Trusted: Lean kernel; IEEE elementwise ops equal in Lean Float and numpy; PRNG as a recorded tape; pow() evaluation of phi not proved.",
             "DESIGN.md §4 C13"),
+    "C02": ("Lean 4 proof (invariant of the calibrator state machine over all components and all calibrate() sequences, by induction over the loop; prefix preservation; sort = permutation) + differential run of the real Calibrator with encoding stubs and recorded built-in samplers",
+            "Proved in Lean for arbitrary model/loss/samplers/PRNG/fault plan and every list of calibrate(n) calls: all records have length nSampled; "
+            "row i's series is the model at exactly params[i] with the configured length, one seed per ensemble member; its loss is the loss of exactly "
+            "those series; batch labels are consecutive from 0 and method labels are the id of the designated sampler; history before a call is a prefix "
+            "of the history after (also when it raises); the return value is a permutation of the recorded pairs sorted by loss. Tied to calibrator.py by "
+            "field-by-field comparison after every operation plus an independent invariant oracle on the real object.",
+            "Trusted: Lean kernel; numpy stacking/repeat contracts; joblib sequential order; stubs of harness/vp/calharness.py. Label alignment needs the sampler contract rows = batch_size.",
+            "DESIGN.md §4 C02"),
 }
 NOT_YET = {}
 
@@ -76,7 +84,7 @@ def main():
             "guard": "BLACK_IT_VERIF",
             "enable": "no source hooks: the harness observes the unmodified code from outside (subclasses, wrappers, strace); BLACK_IT_VERIF=1 is reserved",
             "baseline_off_cmd": "cd /repo && /venv/bin/python -m pytest -ra -q -p no:cacheprovider --timeout=900 --continue-on-collection-errors",
-            "source_commits": [],
+            "source_commits": [],  # no hooks; fix: commits are listed in known_findings.json
             "add_only": True,
         },
         "engines": [{
